@@ -71,10 +71,24 @@ WHITELIST = [
      {"x0": "float", "y0": "float", "x1": "float", "y1": "float", "x2": "float", "y2": "float"}, "float", {}),
     ("util/geometry.py", "isSegmentIntersects", "isSegmentIntersects", {"segment1": "list[float]", "segment2": "list[float]"}, "bool", {}),
     ("core/obs_time.py", "ObsTime.isLeapYear", "isLeapYear", {"year": "int"}, "bool", {}),
+    ("core/spatial_index.py", "SpatialIndex.__getCell", "SpatialIndex_getCell",
+     {"self": {"xmin": "float", "xmax": "float", "ymin": "float", "ymax": "float", "dX": "float", "dY": "float"},
+      "coord": {"getX()": "float", "getY()": "float"}}, "optional[tuple[float,float]]", {}),
+    ("core/spatial_index.py", "SpatialIndex.groundDistanceToUnits", "SpatialIndex_groundDistanceToUnits",
+     {"self": {"dX": "float", "dY": "float"}, "distance": "float"}, "int", {}),
+    ("core/raster.py", "Raster.getCell", "Raster_getCell",
+     {"self": {"xmin": "float", "xmax": "float", "ymin": "float", "ymax": "float", "resolution": "tuple[float,float]",
+               "nrow": "int", "ncol": "int"},
+      "coord": {"getX()": "float", "getY()": "float"}}, "optional[tuple[int,int]]", {}),
 ]
 
-MATH_FUNS = {"sqrt": 1, "sin": 1, "cos": 1, "tan": 1, "atan": 1, "atan2": 2, "exp": 1, "log": 1}
-MATH_ORDER = ["sqrt", "sin", "cos", "tan", "atan", "atan2", "exp", "log"]
+# uninterpreted functions passed as parameters of the generated definition: name -> (arity, result type, Lean type)
+MATH_FUNS = {"sqrt": (1, "F", "α → α"), "sin": (1, "F", "α → α"), "cos": (1, "F", "α → α"), "tan": (1, "F", "α → α"),
+             "atan": (1, "F", "α → α"), "atan2": (2, "F", "α → α → α"), "exp": (1, "F", "α → α"), "log": (1, "F", "α → α"),
+             "floor": (1, "I", "α → Int"),      # math.floor
+             "trunc": (1, "I", "α → Int"),      # int(x) on a float: truncation toward zero
+             "pi": (0, "F", "α")}               # math.pi
+MATH_ORDER = ["pi", "sqrt", "sin", "cos", "tan", "atan", "atan2", "exp", "log", "floor", "trunc"]
 LEAN_KEYWORDS = {"«", "at", "from", "end", "fun", "in", "do", "then", "else", "if", "let", "have", "show", "by", "match",
                  "with", "where", "def", "theorem", "open", "section", "namespace", "variable", "instance", "class",
                  "structure", "import", "Type", "Prop", "Sort", "forall", "exists", "using", "this", "mut", "for",
@@ -135,6 +149,8 @@ def lean_ty(t):
 def uses_alpha(t):
     if t == "F":
         return True
+    if isinstance(t, tuple) and t[0] == "R":
+        return False
     if isinstance(t, tuple):
         if t[0] in ("L", "O"):
             return uses_alpha(t[1])
@@ -176,7 +192,16 @@ class FnTranslator:
     def __init__(self, unit, entry):
         self.unit = unit
         self.path, self.pyname, self.lean, params, ret, locs = entry
-        self.params = {k: parse_ty(v) for k, v in params.items()}
+        # a parameter declared with a dict is an object of which only the listed attributes ("name") and argument-less
+        # pure accessor methods ("name()") are read: each becomes one Lean parameter `<param>_<name>`
+        self.params = {}
+        self.records = {}
+        for k, v in params.items():
+            if isinstance(v, dict):
+                self.records[k] = {f: parse_ty(t) for f, t in v.items()}
+                self.params[k] = ("R", k)
+            else:
+                self.params[k] = parse_ty(v)
         self.ret = parse_ty(ret)
         self.locals = {k: parse_ty(v) for k, v in locs.items()}
         self.needs = set()       # instance classes of α
@@ -229,6 +254,13 @@ class FnTranslator:
 
     # ---- expressions.  expr(e, env, binds) appends (name, monadic term) pairs to binds and returns a Val
     def expr(self, e, env, binds):
+        v = self.expr_s(e, env, binds)
+        if v.ty == "S":
+            bad(e, "a string where a value is needed (strings are only accepted as arguments of print)")
+        return v
+
+    def expr_s(self, e, env, binds):
+        """as expr, but the result may be an (unrendered) string"""
         if isinstance(e, ast.Constant):
             v = e.value
             if type(v) is bool:
@@ -245,6 +277,8 @@ class FnTranslator:
                 if "." not in r and "e" not in r and "E" not in r:
                     r += ".0"
                 return Val("(%s : α)" % r, "F")
+            if type(v) is str:
+                return Val(None, "S")
             bad(e, "constant of type %s" % type(v).__name__)
         if isinstance(e, ast.Name):
             if e.id not in env:
@@ -322,6 +356,16 @@ class FnTranslator:
                     bad(e, "tuple index out of range")
                 return Val(tuple_proj(v.term, k.value, len(v.ty[1])), v.ty[1][k.value])
             bad(e, "subscript of a %s" % (v.ty,))
+        if isinstance(e, ast.Attribute):
+            if isinstance(e.value, ast.Name) and e.value.id == "math" and "math" not in env and e.attr == "pi":
+                self.math.add("pi")
+                return Val("pi", "F")
+            if isinstance(e.value, ast.Name) and env.get(e.value.id) == ("R", e.value.id):
+                fields = self.records[e.value.id]
+                if e.attr not in fields:
+                    bad(e, "attribute %s.%s is not declared in the signature" % (e.value.id, e.attr))
+                return Val(ident(e.value.id + "_" + e.attr), fields[e.attr])
+            bad(e, "attribute access")
         if isinstance(e, ast.Call):
             return self.call(e, env, binds)
         bad(e, "expression %s" % type(e).__name__)
@@ -336,9 +380,13 @@ class FnTranslator:
         return self.grow(s)
 
     def binop(self, e, env, binds):
-        a = self.expr(e.left, env, binds)
-        b = self.expr(e.right, env, binds)
+        a = self.expr_s(e.left, env, binds)
+        b = self.expr_s(e.right, env, binds)
+        if (a.ty == "S") != (b.ty == "S"):
+            bad(e, "string mixed with a non-string")
         op = e.op
+        if a.ty == "S" and b.ty == "S" and isinstance(op, ast.Add):
+            return Val(None, "S")
         if a.ty not in ("F", "I") or b.ty not in ("F", "I"):
             if isinstance(op, (ast.BitAnd, ast.BitOr)) and a.ty == "B" and b.ty == "B":
                 return Val("(%s %s %s)" % (a.term, "&&" if isinstance(op, ast.BitAnd) else "||", b.term), "B")
@@ -437,6 +485,25 @@ class FnTranslator:
         if e.keywords or any(isinstance(a, ast.Starred) for a in e.args):
             bad(e, "keyword / starred arguments")
         f = e.func
+        # strings are opaque: "..".format(..) and str(..) are not rendered (their arguments are assumed not to raise)
+        if isinstance(f, ast.Attribute) and f.attr == "format" and isinstance(f.value, ast.Constant) and isinstance(f.value.value, str):
+            return Val(None, "S")
+        if isinstance(f, ast.Name) and f.id == "str" and "str" not in env and len(e.args) == 1:
+            return Val(None, "S")
+        # argument-less accessor of a declared object parameter
+        if isinstance(f, ast.Attribute) and isinstance(f.value, ast.Name) and env.get(f.value.id) == ("R", f.value.id):
+            fields = self.records[f.value.id]
+            if e.args or (f.attr + "()") not in fields:
+                bad(e, "method %s.%s is not declared as an accessor in the signature" % (f.value.id, f.attr))
+            return Val(ident(f.value.id + "_" + f.attr), fields[f.attr + "()"])
+        # x.is_integer() on a float
+        if isinstance(f, ast.Attribute) and f.attr == "is_integer" and not e.args:
+            v = self.expr(f.value, env, binds)
+            if v.ty != "F":
+                bad(e, "is_integer of a non-float")
+            self.math.add("floor")
+            self.need("IntCast", "LE", "DecidableLE")
+            return Val("(Py.isInteger floor %s)" % v.term, "B")
         # math.xxx
         if isinstance(f, ast.Attribute) and isinstance(f.value, ast.Name) and f.value.id == "math" and "math" not in env:
             args = [self.expr(a, env, binds) for a in e.args]
@@ -446,16 +513,23 @@ class FnTranslator:
                 self.need("Sub", "DecidableLT")
                 self.ofnat.add(0)
                 return Val("(Py.fabs %s)" % self.as_float(e.args[0], args[0]), "F")
-            if f.attr in MATH_FUNS:
-                if len(args) != MATH_FUNS[f.attr]:
+            if f.attr in MATH_FUNS and f.attr not in ("trunc", "pi"):
+                if len(args) != MATH_FUNS[f.attr][0]:
                     bad(e, "math.%s arity" % f.attr)
                 self.math.add(f.attr)
-                return Val("(%s %s)" % (f.attr, " ".join(self.as_float(a, v) for a, v in zip(e.args, args))), "F")
+                return Val("(%s %s)" % (f.attr, " ".join(self.as_float(a, v) for a, v in zip(e.args, args))), MATH_FUNS[f.attr][1])
             bad(e, "math.%s is not in the subset" % f.attr)
         if isinstance(f, ast.Name) and f.id not in env:
             name = f.id
-            if name in ("abs", "float", "min", "max"):
+            if name in ("abs", "float", "min", "max", "int"):
                 args = [self.expr(a, env, binds) for a in e.args]
+                if name == "int":
+                    if len(args) != 1 or args[0].ty not in ("F", "I"):
+                        bad(e, "int() of a non-number")
+                    if args[0].ty == "I":
+                        return args[0]
+                    self.math.add("trunc")
+                    return Val("(trunc %s)" % args[0].term, "I")
                 if name == "abs":
                     if len(args) != 1 or args[0].ty != "F":
                         bad(e, "abs of a non-float")
@@ -580,7 +654,7 @@ class FnTranslator:
                     env2[x] = ("L", None)       # element type fixed by the first append
                     return self.block(rest, env2, fresh | {x})
                 binds = []
-                v = self.expr(val, env, binds)
+                v = self.expr_s(val, env, binds)
                 ty = v.ty
                 term = v.term
                 if x in self.locals:
@@ -593,6 +667,12 @@ class FnTranslator:
                     bad(s, "local %s is bound to a bare integer literal: declare it int or float in the signature" % x)
                 if isinstance(ty, tuple) and ty[0] == "L" and ty[1] is None:
                     bad(s, "alias of an untyped empty list")
+                if ty == "S":
+                    if binds:
+                        bad(s, "string-valued expression with a part that can raise")
+                    env2 = dict(env)
+                    env2[x] = "S"           # usable only as an argument of print(): nothing accepts an S
+                    return self.block(rest, env2, fresh - {x})
                 env2 = dict(env)
                 env2[x] = ty
                 fresh2 = (fresh | {x}) if isinstance(val, ast.List) else (fresh - {x})
@@ -645,7 +725,10 @@ class FnTranslator:
                 raise Unsupported("decorator")
         env = dict(self.params)
         body = self.block(list(fdef.body), env, frozenset())
-        alpha = any(uses_alpha(t) for t in list(self.params.values()) + [self.ret]) or self.needs or self.ofnat or self.math
+        alltypes = [t for p, t in self.params.items() if p not in self.records] + [self.ret]
+        for r in self.records.values():
+            alltypes += list(r.values())
+        alpha = any(uses_alpha(t) for t in alltypes) or self.needs or self.ofnat or self.math
         sig = []
         if alpha:
             sig.append("{α : Type}")
@@ -656,9 +739,13 @@ class FnTranslator:
                 sig.append("[OfNat α %d]" % n)
         for m in MATH_ORDER:
             if m in self.math:
-                sig.append("(%s : %s)" % (m, " → ".join(["α"] * (MATH_FUNS[m] + 1))))
+                sig.append("(%s : %s)" % (m, MATH_FUNS[m][2]))
         for p, t in self.params.items():
-            sig.append("(%s : %s)" % (ident(p), lean_ty(t)))
+            if p in self.records:
+                for f, ft in self.records[p].items():
+                    sig.append("(%s : %s)" % (ident(p + "_" + f.replace("()", "")), lean_ty(ft)))
+            else:
+                sig.append("(%s : %s)" % (ident(p), lean_ty(t)))
         head = "def %s %s : Py.M %s :=\n" % (self.lean, " ".join(sig), lean_ty(self.ret))
         return head + "".join("  " + l + "\n" for l in body.split("\n"))
 
